@@ -91,6 +91,9 @@ pub struct Mode {
     /// take every `stride`-th program of the set (1 = all); with a large thorough set this spreads a
     /// bounded pass over all program sizes instead of the simplest ones only
     pub stride: usize,
+    /// leave out the programs with an index below this (used with `stride` to sample the part of a
+    /// set that a prefix-limited pass does not reach)
+    pub skip_first: usize,
 }
 
 impl Default for Mode {
@@ -112,6 +115,7 @@ impl Default for Mode {
             clock_check: false,
             clock_all_targets: false,
             stride: 1,
+            skip_first: 0,
         }
     }
 }
@@ -739,6 +743,52 @@ pub fn check_program<F: Family>(idx: usize, prog: &Program<F>, mode: &Mode) -> P
                 });
             }
         }
+        // ... or to a recorded semantic deviation of the primitive itself (a finding of another
+        // property, described exactly by the family's weakened model): the inclusion is repeated
+        // with the weakened model, alone and combined with the fused operations
+        if !missing.is_empty() && !attributed {
+            if let Some(name) = F::weakening(&prog.cfg) {
+                for fused in [false, true] {
+                    if fused && known.is_empty() {
+                        continue;
+                    }
+                    let (wo, _) = with_weak(true, || model_outcomes_ex(prog, true, mode.max_model_states, fused));
+                    let wn: BTreeSet<Outcome<F::Res>> = wo.iter().map(|o| normalise(o, &model_panics)).collect();
+                    if std::env::var("VX_DEBUG_WEAK").is_ok() {
+                        for o in wn.iter().filter(|o| !impl_outcomes.contains(*o)) {
+                            eprintln!("weak(fused={}) outcome not produced: {:?}", fused, o);
+                        }
+                        for o in impl_outcomes.iter().filter(|o| !wn.contains(*o)) {
+                            eprintln!("impl outcome not in weak(fused={}): {:?}", fused, o);
+                        }
+                    }
+                    if wn.iter().all(|o| impl_outcomes.contains(o)) {
+                        attributed = true;
+                        let mut names = vec![name.to_string()];
+                        if fused {
+                            names.extend(known.iter().map(|k| k.to_string()));
+                        }
+                        viols.push(Violation {
+                            kind: VKind::Known(names.join("+")),
+                            culprit: names.join("+"),
+                            family: F::NAME.into(),
+                            program_idx: idx,
+                            program: desc.clone(),
+                            op_kinds: kinds.clone(),
+                            what: format!(
+                                "{} outcome(s) of the sequentially consistent model are produced by none of the {} schedules, e.g. {:?}; all outcomes of the weakened model (the recorded deviation of the primitive itself) are produced, so no interleaving is unreachable",
+                                missing.len(),
+                                rep.executions,
+                                missing[0]
+                            ),
+                            alts: vec![],
+                            choices: vec![],
+                        });
+                        break;
+                    }
+                }
+            }
+        }
         for o in &m_strict_norm {
             if attributed {
                 break;
@@ -789,6 +839,7 @@ impl Serialize for Mode {
             "clock_check": self.clock_check,
             "clock_all_targets": self.clock_all_targets,
             "stride": self.stride,
+            "skip_first": self.skip_first,
         })
         .serialize(s)
     }
@@ -812,6 +863,7 @@ pub fn mode_from_json(v: &serde_json::Value) -> Mode {
         clock_check: v["clock_check"].as_bool().unwrap_or(false),
         clock_all_targets: v["clock_all_targets"].as_bool().unwrap_or(false),
         stride: v["stride"].as_u64().unwrap_or(1).max(1) as usize,
+        skip_first: v["skip_first"].as_u64().unwrap_or(0) as usize,
     }
 }
 
@@ -918,7 +970,7 @@ pub fn worker_main(fam: &dyn FamilyDyn, set: &str, mode: &Mode, shard: usize, ns
     let out = std::io::stdout();
     let idxs: Vec<usize> = match only {
         Some(i) => vec![i],
-        None => (from..n).filter(|i| i % mode.stride == 0 && (i / mode.stride) % nshards == shard).collect(),
+        None => (from..n).filter(|i| *i >= mode.skip_first && i % mode.stride == 0 && (i / mode.stride) % nshards == shard).collect(),
     };
     for idx in idxs {
         if t0.elapsed().as_secs_f64() > deadline_s {
@@ -963,7 +1015,8 @@ fn spawn_worker(fam: &str, set: &str, mode: &Mode, shard: usize, nshards: usize,
 /// Run one family/set in `nshards` worker processes and aggregate. A worker that dies is attributed
 /// to the program it was running, which is re-run alone to confirm; the shard then continues.
 pub fn run_family(fam: &dyn FamilyDyn, set: &str, mode: &Mode, nshards: usize, deadline_s: f64) -> FamAgg {
-    let total = (fam.len(set).min(mode.max_programs) + mode.stride - 1) / mode.stride;
+    let upto = fam.len(set).min(mode.max_programs);
+    let total = (0..upto).filter(|i| *i >= mode.skip_first && i % mode.stride == 0).count();
     let mut agg = FamAgg {
         family: fam.name().to_string(),
         set: set.to_string(),
